@@ -9,7 +9,7 @@ use lz4_compression::{compress, decompress};
 use serde::{Deserialize, Serialize};
 
 pub(crate) fn bin_to_image(bin: &[u8]) -> Option<Image> {
-    let bin = decompress::decompress(bin).unwrap();
+    let bin = decompress::decompress(bin).ok()?;
     let img = bincode::deserialize::<ImageData>(&bin).ok()?;
     let dimension = match img.dimensions {
         1 => TextureDimension::D1,
